@@ -18,7 +18,7 @@ func vLens() []int {
 }
 
 // C16(1,3): decode(encode(hrp, data)) == (hrp, data, version) for both checksum constants
-//verif:opts reach=end
+//verif:opts reach=end tier=thorough
 func VH_bech32_roundtrip() {
 	hrp := []string{"bc", "tb", "bcrt"}[vNondetLen("hrp", 2)]
 	lens := vLens()
@@ -43,7 +43,7 @@ func VH_bech32_roundtrip() {
 
 // C16(1): error detection: changing one or two data symbols of a valid string is always detected, and a
 // bech32 string never verifies as bech32m (or vice versa)
-//verif:opts reach=end
+//verif:opts reach=end tier=thorough
 func VH_bech32_error_detection() {
 	hrp := "bc"
 	lens := vLens()
@@ -118,4 +118,42 @@ func VH_convert_bits_padding() {
 	vAssert(five[n-1]&byte((1<<uint(rem))-1) == 0, "accepted padding bits are zero")
 	vAssert(len(out) == n*5/8, "output length")
 	vReach("accept")
+}
+
+// C16(3): a string of printable characters that mixes lower- and upper-case letters is rejected as mixed case
+// (whatever else is wrong with it); never panics.
+//verif:opts reach=mixed
+func VH_bech32_mixed_case() {
+	n := 8 + vNondetLen("n", 2+10*vTier())
+	b := vNondetBytes("s", n)
+	hasLower, hasUpper := false, false
+	for i := 0; i < n; i++ {
+		c := b[i]
+		vAssume(c >= 33 && c <= 126)
+		hasLower = hasLower || (c >= 'a' && c <= 'z')
+		hasUpper = hasUpper || (c >= 'A' && c <= 'Z')
+	}
+	vAssume(hasLower && hasUpper)
+	_, _, _, err := DecodeGeneric(string(b))
+	_, isMixed := err.(ErrMixedCase)
+	vAssert(err != nil && isMixed, "mixed-case strings are rejected as mixed case")
+	vReach("mixed")
+}
+
+// C16(3): a byte outside 33..126 anywhere in the string is rejected
+//verif:opts reach=badchar
+func VH_bech32_bad_char() {
+	n := 8 + vNondetLen("n", 2)
+	b := make([]byte, n)
+	for i := range b {
+		b[i] = 'q'
+	}
+	b[2] = '1'
+	i := vNondetLen("pos", n-1)
+	c := vNondetU8("c")
+	vAssume(c < 33 || c > 126)
+	b[i] = c
+	_, _, _, err := DecodeGeneric(string(b))
+	vAssert(err != nil, "a character outside 33..126 is rejected")
+	vReach("badchar")
 }
